@@ -7,12 +7,17 @@ from .common import setup, run_kernels
 from .c02 import field_contracts
 
 
-def equal_battery(seed):
+def equal_battery(seed, extra_pairs=()):
     import random
     from sym import native
     rng = random.Random(seed)
     pts = ptreplay.bank(rng, 10)
     ops, meta = [], []
+    # pairs of different points on which a polynomial tested by the body vanishes (witness search), in a few representations
+    for p, q in extra_pairs:
+        for _ in range(3):
+            ops.append({"op": "P.Equal", "args": ["a", "b"], "init": {"a": ptreplay.mk_point(p, rng), "b": ptreplay.mk_point(q, rng)}})
+            meta.append((p, q))
     for i, p in enumerate(pts):
         for q in (p, ref.ed_neg(p), pts[(i + 3) % len(pts)], ((-p[0]) % ref.P, (-p[1]) % ref.P) if ref.ed_on_curve(((-p[0]) % ref.P, (-p[1]) % ref.P)) else p,
                   (p[0], (-p[1]) % ref.P) if ref.ed_on_curve((p[0], (-p[1]) % ref.P)) else p):
@@ -59,6 +64,18 @@ def k_equal(l1, alias):
                 found[nm] = h[2]
     ok = len(hyps) == 2 and len(found) == 2
     chk.add(Ob("%s: exactly the two cross-products X1*Z2 - X2*Z1 and Y1*Z2 - Y2*Z1 are tested for zero" % label, "unsat" if ok else "sat", 0, [fname], "ring mode", detail=str([repr(h[1])[:80] for h in hyps])))
+    if not ok:
+        # the body tests something else: pairs of DIFFERENT valid points on which a tested polynomial vanishes are the
+        # candidates for a wrong 'equal' (computed exactly: elimination with the curve equation + roots in GF(p))
+        from sym import witness
+        dv = l1.base.global_val(K.E + "d")
+        dval = sum(int(l) << (51 * k) for k, l in enumerate(dv)) % ref.P
+        try:
+            prs = witness.pair_witnesses([h[1] for h in hyps], dval, chk.seed)
+        except Exception as e:
+            prs = []
+            chk.note_inconclusive("pair witness search failed: %r" % (e,))
+        chk.extra["equal_pair_witnesses"] = [[list(a_), list(b_)] for a_, b_ in prs][:24]
     if ok:
         t0 = time.time()
         s = z3.Solver()
@@ -84,7 +101,8 @@ def run(chk):
     l1 = L1m.L1(base, chk)
     items += [("Equal distinct", lambda: k_equal(l1, "distinct")), ("Equal v=u", lambda: k_equal(l1, "v=u"))]
     run_kernels(chk, items)
-    L1m.settle(chk, [o for o in chk.obs if o.name.startswith("Point.Equal[")], lambda: equal_battery(chk.seed), "Point.Equal")
+    L1m.settle(chk, [o for o in chk.obs if o.name.startswith("Point.Equal[")],
+               lambda: equal_battery(chk.seed, [(tuple(a_), tuple(b_)) for a_, b_ in chk.extra.get("equal_pair_witnesses", [])]), "Point.Equal")
     chk.samples = [o.j() for o in chk.obs if o.name.startswith("Point.Equal[")][:5]
 
 
